@@ -178,6 +178,7 @@ func (m *Module) startCtrlFn(name string, fn func() error) chan error {
 			}
 
 			// Signal finish.
+			verifPoint("ctrl.done", m)
 			m.ctrlFuncRunning.UnSet()
 			verifPoint("ctrl.unset", m)
 			m.checkIfStopComplete()
